@@ -4,7 +4,7 @@ E2 + E1. binImgs, both zoom entry points, azimuthal_average and the encircled-en
 linear in the image, so their complete operators are extracted from ALL unit images of every
 enumerated shape: binning must be the block-sum operator exactly; the zoom operator must be the
 identity / contain the identity rows on the old nodes and reproduce every monomial x^a y^b,
-a, b <= order; every row of the azimuthal operator must be a probability vector (which decides
+a + b <= order (a, b <= order as long as the engine is a tensor-product spline); every row of the azimuthal operator must be a probability vector (which decides
 'constant -> constant' and 'min <= value <= max' for every image of that size); every unit
 encircled-energy curve must start at 0, be non-decreasing and <= 1 (which decides it for every
 non-negative image, a convex combination). Linearity itself is checked by superposition and,
@@ -27,31 +27,54 @@ RULE = ("cases = (a, b, n) for binning [all dtypes and stack depths inside]; (en
         "[all targets and dtypes inside]; size for the azimuthal average; (size, image family chunk) for the "
         "encircled energy. Non-trivial: n >= 2 (binning), target != size (zoom), size >= 6 (radial)")
 ASSUMPTIONS = [
-    "zoom: square arrays 4..8 (4..10 thorough), square targets {n, 2n-1, 3n-2, n+3} and the rectangular targets "
-    "(2n-1, n), (n, 3n-2); spline order k needs at least k+1 samples, smaller arrays are outside the domain",
+    "zoom: square arrays 4..8 (4..10 thorough), square targets {n, 2n-1, 3n-2, n+3} and, smaller than the input, "
+    "{2, (n+1)//2, n-1}, and the rectangular targets (2n-1, n), (n, 3n-2), (n-1, 2n-1); spline order k needs at "
+    "least k+1 samples, smaller arrays are outside the domain; a target of ONE sample is outside the domain (the "
+    "convention 'first and last output samples are the first and last input samples' does not define it)",
+    "'exact for polynomials up to the spline order' is demanded for every monomial x^a y^b of TOTAL degree "
+    "a + b <= order; the monomials with a, b <= order and a + b > order (reproduced by every tensor-product spline) "
+    "are demanded only when the library under test reproduces them (otherwise counted in "
+    "polynomial_tensor_degree_not_claimed)",
+    "the bin factor is judged as an int, a numpy integer and a float holding a whole number; for a float a "
+    "rounding error away from a whole number either the block sums of the nearest whole number or an exception "
+    "is accepted (never another result)",
+    "binning of narrow integer dtypes is judged on counts whose block sums fit the input dtype (what the result "
+    "dtype is, is not part of the statement: only the values are compared); block sums beyond the range of the "
+    "input dtype are NOT judged yet (reported separately for triage, see the note binImgs_uint8_200_by_2)",
     "for a rectangular target either assignment of newSize to the axes is accepted (the statement does not fix "
     "it; zoom_rbs returns shape newSize[::-1]); values are checked for the orientation the shape reveals",
     "when `zoom` raises NotImplementedError (scipy without interp2d) this is reported once by the clause "
     "entry_point_callable and the value clauses of `zoom` are skipped (not silently passed: they are counted "
     "in the statistic zoom_value_cases_skipped)",
-    "tolerances: 1e-10 relative to the largest input sample (zoom), 1e-12 (radial reductions), exact (binning)",
+    "tolerances: 1e-10 relative to the largest input sample (zoom; 1e-5 for complex64 input, which an "
+    "implementation may keep in single precision), 1e-12 (radial reductions), exact (binning)",
     "encircled energy: default centre, even sizes 4..16; 'diameter where the curve crosses the fraction' is read "
-    "as: the reported value is a grid abscissa that bounds a grid segment on which the returned piecewise-linear "
-    "curve attains the fraction (decided whenever the curve reaches the fraction)",
+    "as: the reported value lies (within 4 ulp) on a segment [x_j, x_j+1] of the returned abscissae on which the "
+    "returned piecewise-linear curve attains the fraction - an end point of the segment or any point inside it "
+    "(decided whenever the curve reaches the fraction)",
+    "the number of rings of the azimuthal average and the abscissae of the encircled-energy curve are taken from "
+    "what the library returns (not fixed by the statement); the operator argument needs them to be the same for "
+    "every image of one size - when they are not, the curve clauses are judged image by image and the "
+    "superposition clauses are skipped (ee_common_grid_not_claimed)",
     "all-zero images (no energy) are outside the domain of the encircled-energy clauses",
 ]
 ENGINES = ["E1-product-enumeration", "E2-basis-exhaustion"]
 LEVEL_TEXT = ("Complete operator extraction from every unit image for every enumerated shape, so the binning, "
               "identity/node, probability-row and monotone-curve clauses hold for all images of those shapes by "
               "linearity / convexity; every monomial up to the spline order; all 65 536 binary 4x4 images and all "
-              "512 binary 3x3 blocks in 6x6 for the radial reductions and every fraction 0.1..0.9.")
+              "512 binary 3x3 blocks in 6x6 for the radial reductions and every fraction 0.1..0.9 (0.05, 0.25, 1/3, "
+              "0.95 on the dense images).")
 LEVEL_NOTE = ("Trusted: numpy integer arithmetic, Python Fractions for the zoom grid. Not covered: sizes beyond "
-              "the bounds (spot cases at 130-260 pixels only), non-square input arrays for zoom; encircled energy about a "
-              "caller-given centre is covered for 5 centres (pixel centre, integer, arbitrary) on 8- and 12-pixel images.")
+              "the bounds (spot cases at 70-260 pixels only), non-square input arrays for zoom, zoom to a single "
+              "sample, block sums that overflow a narrow input dtype, default arguments (order, fraction: observed "
+              "in notes only, the statement does not fix them); encircled energy about a caller-given centre is "
+              "covered for 5 centres (pixel centre, integer, arbitrary) on 8- and 12-pixel images and one centre at 130.")
 
-TOL_Z = 1e-10
-TOL_R = 1e-12
+TOL_Z = 1e-10      # unchanged library: <= 6e-15 (4 orders of margin)
+TOL_Z_SINGLE = 1e-5  # complex64 input: 1e-16 when the library computes in double, 5e-8 when it keeps single precision
+TOL_R = 1e-12      # unchanged library: <= 9e-16
 FRACTIONS = [0.1, 0.2, 0.3, 0.4, 0.5, 0.6, 0.7, 0.8, 0.9]
+EXTRA_FRACTIONS = [0.05, 0.25, 1.0 / 3.0, 0.95]      # dense images only
 
 
 def _bin_range(tier):
@@ -73,8 +96,13 @@ def _ee_sizes(tier):
 def BOUNDS(tier):
     ab, ns = _bin_range(tier)
     return {"bin_a_b": list(ab), "bin_n": list(ns), "bin_dtypes": ["float64", "int64", "complex128"],
-            "bin_stack_depths": [0, 1, 2, 3], "zoom_sizes": list(_zoom_sizes(tier)),
-            "zoom_targets": ["n", "2n-1", "3n-2", "n+3", "(2n-1,n)", "(n,3n-2)"], "zoom_orders": [1, 3, 5],
+            "bin_narrow_dtypes_sums_fitting": ["uint8", "uint16", "int16", "int32", "float32"],
+            "bin_stack_depths": [0, 1, 2, 3], "bin_leading_axes": ["(2,3)", "(1,1,1)"],
+            "zoom_sizes": list(_zoom_sizes(tier)),
+            "zoom_targets": ["n", "2n-1", "3n-2", "n+3", "2", "(n+1)//2", "n-1", "(2n-1,n)", "(n,3n-2)", "(n-1,2n-1)"],
+            "zoom_orders": [1, 3, 5], "largest_size": {"bin": "260x140, 130 frames", "zoom": "70->139, 130->130",
+                                                      "radial": 258},
+            "extra_fractions_dense_images": EXTRA_FRACTIONS,
             "zoom_dtypes": ["float64", "complex64", "complex128"], "zoom_entry_points": ["zoom_rbs", "zoom"],
             "azimuthal_sizes": _az_sizes(tier), "ee_sizes": _ee_sizes(tier), "fractions": FRACTIONS,
             "binary_images": "all 3x3 blocks in 6x6" + ("" if tier == "quick" else ", all 4x4")}
@@ -154,7 +182,8 @@ def _bin(p):
     from aotools import interpolation
     import aotools
     o = Out()
-    o.check("same_function_all_paths", aotools.binImgs is interpolation.binImgs)
+    # observation only (the statement does not say how the package exposes the function)
+    o.note("same_function_all_paths", bool(getattr(aotools, "binImgs", None) is interpolation.binImgs))
     a, b, n = p["a"], p["b"], p["n"]
     for depth in (0, 1, 2, 3):
         shape = ((depth,) if depth else ()) + (a * n, b * n)
@@ -180,7 +209,7 @@ def _bin(p):
                 o.stat("lib_calls", c)
                 oki = numpy.array_equal(Ti, 1j * B)
                 o.check("block_sums_exact", oki, sub=None if oki else tag + ":imag")
-            # dense index-coded image: values, dtype kept, flux preserved, linearity
+            # dense index-coded image: values, flux preserved, linearity
             x = (numpy.arange(size) * 7 % 11 + 1).reshape(shape).astype(dt)
             if dt is complex:
                 x = x + 1j * (numpy.arange(size) * 3 % 5).reshape(shape)
@@ -191,8 +220,8 @@ def _bin(p):
             okf = y.shape == oshape and (y.sum() == x.sum()) and (
                 depth == 0 or numpy.array_equal(y.reshape(depth, -1).sum(1), x.reshape(depth, -1).sum(1)))
             o.check("flux_preserved", bool(okf), sub=None if okf else tag)
-            okt = y.dtype == x.dtype
-            o.check("dtype_kept", okt, sub=None if okt else tag, detail=str(y.dtype))
+            # the result dtype is not part of the statement (an implementation may accumulate in a wider one)
+            o.note("result_dtype:" + numpy.dtype(dt).name, str(y.dtype))
             # the same values in other memory layouts (Fortran order, a transposed view, a strided view)
             big = numpy.zeros(shape[:-2] + (2 * shape[-2], 2 * shape[-1]), dtype=x.dtype)
             big[..., ::2, ::2] = x
@@ -205,6 +234,39 @@ def _bin(p):
                 o.check("block_sums_exact", okl, sub=None if okl else tag + ":layout=" + lname,
                         detail=None if okl else {"got": yl, "c_contiguous": bool(xl.flags.c_contiguous),
                                                  "f_contiguous": bool(xl.flags.f_contiguous)})
+    # --- camera counts in narrow dtypes, as large as the dtype allows with every block sum still inside its range
+    # (sums beyond the range of the input dtype are not judged here, see ASSUMPTIONS); values compared, not dtypes
+    for depth in (0, 3):
+        shape = ((depth,) if depth else ()) + (a * n, b * n)
+        oshape = ((depth,) if depth else ()) + (a, b)
+        size = int(numpy.prod(shape))
+        for dt in (numpy.uint8, numpy.uint16, numpy.int16, numpy.int32, numpy.float32):
+            top = (numpy.iinfo(dt).max if numpy.dtype(dt).kind in "iu" else 2 ** 20) // (n * n)
+            x = ((numpy.arange(size) * 7 % 11 + 1) * max(1, top // 11)).reshape(shape).astype(dt)
+            want = imgops.block_sum(x.astype(numpy.int64), n)
+            tag = "depth=%d:%s:sums_fit" % (depth, numpy.dtype(dt).name)
+            y = numpy.asarray(interpolation.binImgs(x.copy(), n))
+            o.stat("lib_calls", 1)
+            okd = y.shape == oshape and numpy.array_equal(y, want)
+            o.check("block_sums_exact", okd, sub=None if okd else tag, detail=None if okd else {"got": y, "want": want})
+    # --- stacks with more than one leading axis, in every memory layout (leading axes swapped in memory as well)
+    from mc import variants
+    for lead in ((2, 3), (1, 1, 1)):
+        shape = lead + (a * n, b * n)
+        oshape = lead + (a, b)
+        size = int(numpy.prod(shape))
+        for dt in (float, numpy.int64):
+            tag = "lead=%s:%s" % ("x".join(map(str, lead)), numpy.dtype(dt).name)
+            x = (numpy.arange(size) * 5 % 13 + 1).reshape(shape).astype(dt)
+            want = imgops.block_sum(x, n)
+            for lname, xl in [("c", x.copy())] + variants.layouts(x):
+                y = numpy.asarray(interpolation.binImgs(xl, n))
+                o.stat("lib_calls", 1)
+                okd = y.shape == oshape and numpy.array_equal(y, want)
+                o.check("block_sums_exact", okd, sub=None if okd else tag + ":layout=" + lname,
+                        detail=None if okd else {"got_shape": y.shape})
+                okf = y.shape == oshape and numpy.array_equal(y.reshape(lead + (-1,)).sum(-1), x.reshape(lead + (-1,)).sum(-1))
+                o.check("flux_preserved", bool(okf), sub=None if okf else tag + ":layout=" + lname)
     o.outcome((a, b, n))
     return o
 
@@ -220,7 +282,8 @@ def _callable():
     import aotools
     from aotools import interpolation
     o = Out()
-    o.check("same_function_all_paths", aotools.zoom is interpolation.zoom and aotools.zoom_rbs is interpolation.zoom_rbs)
+    o.note("same_function_all_paths:zoom", bool(getattr(aotools, "zoom", None) is interpolation.zoom
+                                                 and getattr(aotools, "zoom_rbs", None) is interpolation.zoom_rbs))
     for name in ("zoom_rbs", "zoom"):
         try:
             y = _entry(name)(numpy.arange(16.0).reshape(4, 4), (4, 4), order=1)
@@ -235,6 +298,16 @@ def _callable():
         o.note("zoom_rbs_integer_newSize", "accepted")
     except Exception as e:
         o.note("zoom_rbs_integer_newSize", type(e).__name__)
+    # observation only (the statement does not fix the default order): which order a call without `order` uses
+    x = imgops.monomial(8, 8, 2, 3) + 1.0
+    for name in ("zoom_rbs", "zoom"):
+        try:
+            d = numpy.asarray(_entry(name)(x.copy(), (11, 11)))
+            same = [k for k in (1, 3, 5)
+                    if _maxabs(d - numpy.asarray(_entry(name)(x.copy(), (11, 11), order=k))) <= TOL_Z * _maxabs(x)]
+            o.note("%s_default_order" % name, same)
+        except Exception as e:
+            o.note("%s_default_order" % name, type(e).__name__)
     return o
 
 
@@ -259,7 +332,9 @@ def _zoom(p):
         o.stat("zoom_value_cases_skipped", 1)      # reported by zoom:callable
         return o
     targets = sorted(set([(n, n), (2 * n - 1, 2 * n - 1), (3 * n - 2, 3 * n - 2), (n + 3, n + 3),
-                          (2 * n - 1, n), (n, 3 * n - 2)]))
+                          (2 * n - 1, n), (n, 3 * n - 2),
+                          # smaller than the input ((n+1)//2 takes every second node when n is odd)
+                          (2, 2), ((n + 1) // 2, (n + 1) // 2), (n - 1, n - 1), (n - 1, 2 * n - 1)]))
     for (xs, ys) in targets:
         tag = "target=%dx%d" % (xs, ys)
 
@@ -292,26 +367,37 @@ def _zoom(p):
         if su is not None and sv is not None:
             nodes = Z4[::su, ::sv].reshape(n * n, n * n)
             o.close("passes_through_nodes", _maxabs(nodes - numpy.eye(n * n)), TOL_Z, sub=tag)
-        # --- every monomial up to the order (a basis of the polynomials exact for this spline)
-        worst, worst_ab = 0.0, None
-        dense_in = numpy.zeros((n, n))
-        dense_ex = numpy.zeros(oshape)
+        # --- every monomial up to the order: total degree a + b <= order is what the statement demands of any
+        # interpolant; a, b <= order with a + b > order is reproduced by every tensor-product spline (the library's
+        # engine) and is demanded as long as the library under test does so (guard, see ASSUMPTIONS)
+        worst = {False: 0.0, True: 0.0}          # key: beyond total degree
+        worst_ab = {False: None, True: None}
+        dense_in = {False: numpy.zeros((n, n)), True: numpy.zeros((n, n))}
+        dense_ex = {False: numpy.zeros(oshape), True: numpy.zeros(oshape)}
         for a in range(order + 1):
             for b in range(order + 1):
                 m = imgops.monomial(n, n, a, b)
                 ex = imgops.monomial_on_grid(gu, gv, a, b)
                 got = z(m)
                 o.stat("lib_calls", 1)
-                err = _maxabs(got - ex) / _maxabs(m)
-                if err > worst:
-                    worst, worst_ab = err, (a, b)
+                err = _maxabs(got - ex) / _maxabs(m) if got.shape == ex.shape else float("inf")
+                beyond = a + b > order
+                if not err <= worst[beyond]:
+                    worst[beyond], worst_ab[beyond] = err, (a, b)
                 cf = ((a * 3 + b * 5) % 7 - 3) / _maxabs(m)
-                dense_in += cf * m
-                dense_ex += cf * ex
-        o.close("polynomial_exact", worst, TOL_Z, sub=tag, detail={"worst_monomial_a_b": worst_ab})
-        got = z(dense_in)
+                dense_in[beyond] += cf * m
+                dense_ex[beyond] += cf * ex
+        tensor = worst[True] <= TOL_Z
+        if not tensor:
+            o.stat("polynomial_tensor_degree_not_claimed", 1)
+        w, wab = max((worst[k], str(worst_ab[k])) for k in ((False, True) if tensor else (False,)))
+        o.close("polynomial_exact", w, TOL_Z, sub=tag, detail={"worst_monomial_a_b": wab})
+        d_in = dense_in[False] + (dense_in[True] if tensor else 0.0)
+        d_ex = dense_ex[False] + (dense_ex[True] if tensor else 0.0)
+        got = z(d_in)
         o.stat("lib_calls", 1)
-        o.close("polynomial_exact", _maxabs(got - dense_ex) / max(_maxabs(dense_in), 1e-300), TOL_Z, sub=tag + ":combination")
+        o.close("polynomial_exact", _maxabs(got - d_ex) / max(_maxabs(d_in), 1e-300) if got.shape == d_ex.shape else float("inf"),
+                TOL_Z, sub=tag + ":combination")
         # orientation: the asymmetric monomials alone (a transposed answer is off by O(1))
         ex10 = imgops.monomial_on_grid(gu, gv, 1, 0)
         o.close("orientation", _maxabs(probe - ex10) / (n - 1.0), TOL_Z, sub=tag)
@@ -323,12 +409,14 @@ def _zoom(p):
         for cdt in (numpy.complex128, numpy.complex64):
             zc = z((re + 1j * im).astype(cdt))
             o.stat("lib_calls", 1)
-            okc = numpy.iscomplexobj(zc) and zc.shape == oshape
-            o.check("complex_is_real_plus_i_imag", okc and _maxabs(zc - (zr + 1j * zi)) / 5.0 <= TOL_Z,
+            okc = numpy.iscomplexobj(zc) and zc.shape == oshape and zr.shape == oshape and zi.shape == oshape
+            # complex64: an implementation may keep single precision (the data are small integers, exact in both)
+            tol = TOL_Z if cdt is numpy.complex128 else TOL_Z_SINGLE
+            o.check("complex_is_real_plus_i_imag", okc and _maxabs(zc - (zr + 1j * zi)) / 5.0 <= tol,
                     sub=tag + ":" + numpy.dtype(cdt).name,
-                    measure=_maxabs(zc - (zr + 1j * zi)) / 5.0 if okc else None, tol=TOL_Z)
-        ok_real = not numpy.iscomplexobj(zr)
-        o.check("real_stays_real", ok_real, sub=None if ok_real else tag)
+                    measure=_maxabs(zc - (zr + 1j * zi)) / 5.0 if okc else None, tol=tol)
+        if numpy.iscomplexobj(zr):       # observation only: values are what the statement speaks about
+            o.note("real_input_gives_complex_array", p["entry"])
     o.outcome((p["entry"], n, order))
     return o
 
@@ -339,19 +427,34 @@ def _az(n):
     from aotools.image_processing import psf
     import aotools
     o = Out()
-    o.check("same_function_all_paths", aotools.azimuthal_average is psf.azimuthal_average)
-    nr = n // 2
+    o.note("same_function_all_paths:azimuthal_average",
+           bool(getattr(aotools, "azimuthal_average", None) is psf.azimuthal_average))
+    # the number of rings is what the library returns for the first image (not fixed by the statement); it has to
+    # be a 1-d vector of the same length for every image of this size
+    first = [None, True]
 
     def f(x):
-        return psf.azimuthal_average(x.copy())
-    A, c = linear.operator(f, (n, n), dtype=float, out_shape=(nr,))
+        y = numpy.asarray(psf.azimuthal_average(x.copy()), dtype=float)
+        if first[0] is None:
+            first[0] = y.shape
+        elif y.shape != first[0]:
+            first[1] = False
+            return numpy.full(first[0], numpy.nan)
+        return y
+    y0 = f(numpy.ones((n, n)))
+    o.stat("lib_calls", 1)
+    if y0.ndim != 1 or y0.size == 0:
+        o.check("azimuthal_vector_same_length_for_every_image", False, detail="shape %s" % (y0.shape,))
+        return o
+    A, c = linear.operator(f, (n, n), dtype=float)
     o.stat("lib_calls", c)
     e, c = linear.superposition_error(f, (n, n), A, dtype=float)
     o.stat("lib_calls", c)
     o.close("linear_in_data", e / (4.0 * n * n), TOL_R)
     # every ring is an average: non-negative weights adding up to one. By linearity this gives
     # constant -> constant and min <= value <= max for EVERY image of this size.
-    o.close("ring_weights_nonnegative", max(0.0, -float(A.min())), 0.0)
+    # (exactly 0 on the unchanged library; ring sums formed as differences of nested-circle sums may give -1e-17)
+    o.close("ring_weights_nonnegative", max(0.0, -float(A.min())), TOL_R)
     o.close("ring_weights_sum_to_one", _maxabs(A.sum(1) - 1.0), TOL_R)
     for cst in (1.0, 2.5, -3.0, 1e6):
         y = numpy.asarray(f(numpy.full((n, n), cst)))
@@ -363,8 +466,25 @@ def _az(n):
         lo, hi = x.min(), x.max()
         viol = max(0.0, float(lo - y.min()), float(y.max() - hi)) / max(abs(lo), abs(hi), 1.0)
         o.close("between_min_and_max", viol, TOL_R, sub="dense%d" % k)
+    # value-dependent branches (clipping, thresholds relative to the maximum): 16 decades of dynamic range and
+    # one hot pixel of 1e12 on a unit background - decided directly, relative to the largest pixel
+    for k, x in enumerate(_wide_range_images(n)):
+        y = numpy.asarray(f(x))
+        o.stat("lib_calls", 1)
+        lo, hi = x.min(), x.max()
+        viol = max(0.0, float(lo - y.min()), float(y.max() - hi)) / hi
+        o.close("between_min_and_max", viol if numpy.all(numpy.isfinite(y)) else float("inf"), TOL_R, sub="wide%d" % k)
+    o.check("azimuthal_vector_same_length_for_every_image", first[1])
     o.outcome(A.round(12))
     return o
+
+
+def _wide_range_images(n):
+    k = numpy.arange(n * n)
+    yield (10.0 ** ((k * 7) % 17 - 8.0)).reshape(n, n)
+    x = numpy.ones((n, n))
+    x[n // 3, n // 2] = 1e12
+    yield x
 
 
 def _dense_images(n):
@@ -416,38 +536,52 @@ def _curve_clauses(o, xi, yi, sub, detail=None):
 
 
 class _Diam(object):
-    """collects the diameter clauses per fraction so that failing ids are (clause, case, fraction)"""
+    """collects the diameter clauses per fraction so that failing ids are (clause, case, fraction)
+
+    ee_diameter_on_grid          the reported diameter is one finite real number inside the range of the returned abscissae
+    ee_diameter_value_adjacent   the returned curve, read at the reported diameter, is not below the largest curve
+                                 value <= fraction and not above the smallest curve value >= fraction
+    ee_diameter_at_crossing      the reported diameter lies on a segment [x_j, x_j+1] of the returned abscissae on
+                                 which the returned curve attains the fraction (end points included: a grid-point
+                                 answer and an answer interpolated inside the segment are both accepted)
+    """
 
     def __init__(self):
         self.n = {}
         self.bad = {}
 
-    def add(self, psf, x, xi, yi, label, center=None):
+    def add(self, psf, x, xi, yi, label, center=None, fractions=None):
         calls = 0
-        for fr in FRACTIONS:
-            d = psf.encircled_energy(x.copy(), fraction=fr) if center is None else psf.encircled_energy(x.copy(), fraction=fr, center=list(center))
+        xi = numpy.asarray(xi, dtype=float)
+        yi = numpy.asarray(yi, dtype=float)
+        slack = 4.0 * float(numpy.spacing(max(abs(float(xi[-1])), 1.0)))      # the abscissa recomputed another way
+        for fr in (FRACTIONS if fractions is None else fractions):
+            d = psf.encircled_energy(x.copy(), fraction=fr) if center is None else psf.encircled_energy(x.copy(), fraction=fr, center=center)
             calls += 1
-            where = numpy.nonzero(xi == d)[0]
             key = "f=%g" % fr
             self.n[("ee_diameter_on_grid", key)] = self.n.get(("ee_diameter_on_grid", key), 0) + 1
-            if not isinstance(d, float) or len(where) != 1:
-                self.bad.setdefault(("ee_diameter_on_grid", key), {"image": label, "diameter": d})
+            try:
+                dv = float(d) if numpy.ndim(d) == 0 else float("nan")
+            except (TypeError, ValueError):
+                dv = float("nan")
+            if not (xi[0] - slack <= dv <= xi[-1] + slack):
+                self.bad.setdefault(("ee_diameter_on_grid", key), {"image": label, "diameter": repr(d)[:80]})
                 continue
-            k = int(where[0])
             lo, hi = imgops.nearest_values(yi, fr)
             if lo is None or hi is None:
                 continue          # the curve never reaches the fraction: nothing to locate
+            cv = float(numpy.interp(dv, xi, yi))
             self.n[("ee_diameter_value_adjacent", key)] = self.n.get(("ee_diameter_value_adjacent", key), 0) + 1
-            if not (abs(yi[k] - lo) <= TOL_R or abs(yi[k] - hi) <= TOL_R):
+            if not (lo - TOL_R <= cv <= hi + TOL_R):
                 self.bad.setdefault(("ee_diameter_value_adjacent", key),
-                                    {"image": label, "diameter": d, "curve_there": yi[k], "adjacent": (lo, hi)})
-            ok = imgops.crossing_grid_points(xi, yi, fr)
+                                    {"image": label, "diameter": dv, "curve_there": cv, "adjacent": (lo, hi)})
+            y0, y1 = numpy.minimum(yi[:-1], yi[1:]), numpy.maximum(yi[:-1], yi[1:])
+            seg = numpy.nonzero((y0 - TOL_R <= fr) & (fr <= y1 + TOL_R))[0]      # segments on which the curve attains fr
             self.n[("ee_diameter_at_crossing", key)] = self.n.get(("ee_diameter_at_crossing", key), 0) + 1
-            if k not in ok:
-                cross = sorted(ok)
+            if not numpy.any((xi[seg] - slack <= dv) & (dv <= xi[seg + 1] + slack)):
                 ent = self.bad.setdefault(("ee_diameter_at_crossing", key),
-                                          {"image": label, "reported_diameter": d, "curve_there": float(yi[k]),
-                                           "curve_crosses_between": (float(xi[cross[0]]), float(xi[cross[-1]])),
+                                          {"image": label, "reported_diameter": dv, "curve_there": cv,
+                                           "curve_crosses_between": (float(xi[seg[0]]), float(xi[seg[-1] + 1])) if len(seg) else None,
                                            "images_failing": 0})
                 ent["images_failing"] += 1
         return calls
@@ -459,52 +593,79 @@ class _Diam(object):
                     measure=None if bad is None else bad.get("images_failing"))
 
 
+def _compact_image(n, c):
+    """all the flux within a diameter of a quarter of the image about (c, c) (corner-origin coordinates, pixel (i, j)
+    has its centre at (i + 0.5, j + 0.5); symmetric, so it does not matter which coordinate is which axis): every
+    fraction 0.05 .. 0.95 is reached inside the returned abscissae"""
+    g = numpy.arange(n) + 0.5 - c
+    return numpy.exp(-numpy.add.outer(g ** 2, g ** 2) / (2.0 * (n / 16.0) ** 2)) + 1e-9
+
+
 def _eeunit(n, center=None):
     """center=None: the default centre; otherwise the curve and the diameters about a caller-given centre (integer,
     half-integer = a pixel centre in the corner-origin convention, arbitrary) - every clause is the same"""
     from aotools.image_processing import psf
     import aotools
     o = Out()
-    o.check("same_function_all_paths", aotools.encircled_energy is psf.encircled_energy)
+    o.note("same_function_all_paths:encircled_energy", bool(getattr(aotools, "encircled_energy", None) is psf.encircled_energy))
     dm = _Diam()
-    grid = [None]
+    # the centre in the spellings a caller uses (list, tuple, array): the same clauses for each
+    spell = [list, tuple, numpy.array]
 
-    def f(x):
+    def curve(x, k=0):
         xi, yi = psf.encircled_energy(x.copy(), eeDiameter=False) if center is None else \
-            psf.encircled_energy(x.copy(), center=list(center), eeDiameter=False)
-        if grid[0] is None:
-            grid[0] = numpy.array(xi)
-        elif not numpy.array_equal(grid[0], xi):
-            raise ValueError("abscissae depend on the image")
-        return numpy.asarray(yi)
+            psf.encircled_energy(x.copy(), center=spell[k % 3](center), eeDiameter=False)
+        return numpy.asarray(xi, dtype=float), numpy.asarray(yi, dtype=float)
+
+    def grid_ok(xi, yi):
+        return bool(xi.ndim == 1 and xi.shape == yi.shape and len(xi) >= 2 and xi[0] == 0 and numpy.all(numpy.diff(xi) > 0))
     # unit images carry total energy 1, so column k is the curve of pixel k; the curve of any
-    # non-negative image is the convex combination sum_k (x_k / sum x) column_k
-    E, c = linear.operator(f, (n, n), dtype=float)
-    o.stat("lib_calls", c)
-    xi = grid[0]
-    ok_grid = len(xi) == E.shape[0] and xi[0] == 0 and numpy.all(numpy.diff(xi) > 0)
-    o.check("ee_grid_increasing_from_zero", bool(ok_grid))
+    # non-negative image is the convex combination sum_k (x_k / sum x) column_k - provided the abscissae are
+    # the same for every image of this size (guarded: otherwise every curve is judged on its own abscissae)
     worst = {"ee_starts_at_zero": 0.0, "ee_non_decreasing": 0.0, "ee_at_most_one": 0.0, "ee_at_least_zero": 0.0}
+    cols, grid, common, grids_fine = [], None, True, True
     for k in range(n * n):
-        yi = E[:, k]
+        x = numpy.zeros((n, n))
+        x.flat[k] = 1.0
+        xi, yi = curve(x)
+        o.stat("lib_calls", 1)
+        if not grid_ok(xi, yi):
+            grids_fine = False
+            continue
+        if grid is None:
+            grid = xi
+        elif xi.shape != grid.shape or _maxabs(xi - grid) > 4.0 * numpy.spacing(max(float(grid[-1]), 1.0)):
+            common = False
+        cols.append(yi)
         worst["ee_starts_at_zero"] = max(worst["ee_starts_at_zero"], abs(float(yi[0])))
         worst["ee_non_decreasing"] = max(worst["ee_non_decreasing"], float(numpy.max(-numpy.diff(yi))))
         worst["ee_at_most_one"] = max(worst["ee_at_most_one"], float(yi.max()) - 1.0)
         worst["ee_at_least_zero"] = max(worst["ee_at_least_zero"], -float(yi.min()))
-        x = numpy.zeros((n, n))
-        x.flat[k] = 1.0
+        if not numpy.all(numpy.isfinite(yi)):
+            worst["ee_non_decreasing"] = float("inf")
         o.stat("lib_calls", dm.add(psf, x, xi, yi, "unit pixel %d" % k, center))
+    o.check("ee_grid_increasing_from_zero", grids_fine)
     for cl, v in worst.items():
         o.check(cl, v <= TOL_R, measure=max(v, 0.0), tol=TOL_R, n=n * n)
+    E = None
+    if common and grids_fine:
+        E = numpy.array(cols).T
+    else:
+        o.stat("ee_common_grid_not_claimed", 1)
     # convexity / normalisation on dense non-negative images, positive scaling invariance
     for k, x in enumerate(_dense_images(n)):
         x = numpy.abs(x) + (k == 0)
-        yi = f(x)
+        xi, yi = curve(x, k)
         o.stat("lib_calls", 1)
+        if not grid_ok(xi, yi):
+            o.check("ee_grid_increasing_from_zero", False, sub="dense%d" % k)
+            continue
         w = x.reshape(-1) / x.sum()
-        o.close("ee_convex_combination_of_unit_curves", _maxabs(yi - E @ w), TOL_R, sub="dense%d" % k)
+        if E is not None and E.shape[0] == len(yi):
+            o.close("ee_convex_combination_of_unit_curves", _maxabs(yi - E @ w), TOL_R, sub="dense%d" % k)
         _curve_clauses(o, xi, yi, "dense%d" % k)
-        o.close("ee_scale_invariant", _maxabs(f(3.0 * x) - yi), TOL_R, sub="dense%d" % k)
+        y3 = curve(3.0 * x, k)[1]
+        o.close("ee_scale_invariant", _maxabs(y3 - yi) if y3.shape == yi.shape else float("inf"), TOL_R, sub="dense%d" % k)
         # the same image as camera counts in narrow dtypes, scaled to use most of the dtype's range: the curve
         # is a property of the values, not of how they are stored
         for dt, top in ((numpy.uint8, 250), (numpy.uint16, 60000), (numpy.int16, 30000), (numpy.int32, 2 ** 30),
@@ -513,14 +674,31 @@ def _eeunit(n, center=None):
             xq = numpy.floor(xq).astype(dt) if numpy.dtype(dt).kind in "iu" else xq.astype(dt)
             if not xq.any():
                 continue
-            yq, yf = f(xq), f(xq.astype(float))
+            (xq_i, yq), yf = curve(xq, k), curve(xq.astype(float), k)[1]
             o.stat("lib_calls", 2)
-            o.close("ee_independent_of_storage_dtype", _maxabs(yq - yf), 1e-6 if dt is numpy.float32 else TOL_R,
-                    sub="dense%d:%s" % (k, numpy.dtype(dt).name))
-            _curve_clauses(o, xi, yq, "dense%d:%s" % (k, numpy.dtype(dt).name))
-        o.stat("lib_calls", 1 + dm.add(psf, x, xi, yi, "dense%d" % k, center))
+            # float32: 3e-8 on the unchanged library
+            o.close("ee_independent_of_storage_dtype", _maxabs(yq - yf) if yq.shape == yf.shape else float("inf"),
+                    1e-6 if dt is numpy.float32 else TOL_R, sub="dense%d:%s" % (k, numpy.dtype(dt).name))
+            _curve_clauses(o, xq_i, yq, "dense%d:%s" % (k, numpy.dtype(dt).name))
+        cen = None if center is None else spell[k % 3](center)
+        o.stat("lib_calls", 1 + dm.add(psf, x, xi, yi, "dense%d" % k, cen, FRACTIONS + EXTRA_FRACTIONS))
+    # images that decide what the dense ones leave open: all the flux near the centre (every fraction is reached
+    # inside the abscissae), 16 decades of dynamic range, one hot pixel of 1e12 on a unit background
+    extra = [("wide%d" % k, x) for k, x in enumerate(_wide_range_images(n))]
+    if center is None or center[0] == center[1]:
+        extra.append(("compact", _compact_image(n, n // 2 if center is None else center[0])))
+    for name, x in extra:
+        xi, yi = curve(x)
+        o.stat("lib_calls", 1)
+        if not grid_ok(xi, yi):
+            o.check("ee_grid_increasing_from_zero", False, sub=name)
+            continue
+        _curve_clauses(o, xi, yi, name)
+        o.stat("lib_calls", dm.add(psf, x, xi, yi, name, center, FRACTIONS + EXTRA_FRACTIONS))
+        if name == "compact":
+            o.stat("compact_image_fractions_reached", int(sum(float(yi.max()) >= fr for fr in FRACTIONS + EXTRA_FRACTIONS)))
     dm.flush(o)
-    o.outcome(E.round(12))
+    o.outcome(numpy.array(cols).round(12) if common and grids_fine else len(cols))
     return o
 
 
@@ -598,21 +776,43 @@ def _large(p):
         got = numpy.asarray(interpolation.binImgs(img.copy(), n))
         o.check("block_sums_exact_large", got.shape == (260 // n, 140 // n) and numpy.array_equal(got, imgops.block_sum(img, n)),
                 sub="2d:n=%d" % n)
-    # the bin factor in every spelling a pixel-scale ratio produces: ints, numpy ints, floats, and floats a rounding
-    # error away from the whole number (0.3 / 0.1 = 2.9999999999999996, 0.1 * 3 / 0.1 = 3.0000000000000004)
+    # the bin factor in every spelling a pixel-scale ratio produces: ints, numpy ints, floats holding a whole number
+    # (judged: block sums), and floats a rounding error away from the whole number (0.3 / 0.1 = 2.9999999999999996,
+    # 0.1 * 3 / 0.1 = 3.0000000000000004): the statement speaks of binning by n for whole n, so for those an
+    # implementation may take the nearest whole number or refuse (an exception) - any other result is a violation
     small = img[:12, :24]
     for n_, forms in ((3, (3, 3.0, 0.3 / 0.1, 0.1 * 3 / 0.1 if 0.1 * 3 / 0.1 != 3.0 else 3.0000000000000004, numpy.float64(3.0), numpy.int64(3), numpy.float32(3.0))),
                       (2, (2, 2.0, 1.2 / 0.6, 0.2 / 0.1, 2.0000000000000004, numpy.int32(2))), (4, (4, 4.0, 0.4 / 0.1, 3.9999999999999996, numpy.uint8(4)))):
         want = imgops.block_sum(small, n_)
         for f_ in forms:
-            got = numpy.asarray(interpolation.binImgs(small.copy(), f_))
-            o.check("bin_factor_in_any_spelling", got.shape == want.shape and numpy.array_equal(got, want),
-                    sub="n=%r (%s)" % (f_, type(f_).__name__), detail=got.shape)
+            whole = float(f_) == n_
+            sub = "n=%r (%s)" % (f_, type(f_).__name__)
             o.stat("lib_calls", 1)
+            try:
+                got = numpy.asarray(interpolation.binImgs(small.copy(), f_))
+            except Exception as e:
+                if whole:
+                    o.check("bin_factor_in_any_spelling", False, sub=sub, detail="%s: %s" % (type(e).__name__, str(e)[:200]))
+                else:
+                    o.check("bin_factor_in_any_spelling", True)
+                    o.stat("bin_factor_near_integer_refused", 1)
+                continue
+            o.check("bin_factor_in_any_spelling", got.shape == want.shape and numpy.array_equal(got, want),
+                    sub=sub, detail=got.shape)
     st = numpy.array([numpy.roll(img[:20, :12], k, 0) + k for k in range(130)])
     got = numpy.asarray(interpolation.binImgs(st.copy(), 2))
     o.check("block_sums_exact_large", got.shape == (130, 10, 6) and numpy.array_equal(got, imgops.block_sum(st, 2)), sub="stack130")
-    o.stat("lib_calls", 4)
+    st4 = st.reshape(10, 13, 20, 12)                  # the 130 frames on two leading axes
+    got = numpy.asarray(interpolation.binImgs(st4.copy(), 2))
+    o.check("block_sums_exact_large", got.shape == (10, 13, 10, 6) and numpy.array_equal(got, imgops.block_sum(st4, 2)), sub="stack10x13")
+    o.stat("lib_calls", 5)
+    # observation for triage, NOT judged (see ASSUMPTIONS): block sums beyond the range of a narrow input dtype
+    try:
+        v = numpy.asarray(interpolation.binImgs(numpy.full((4, 4), 200, dtype=numpy.uint8), 2))
+        o.note("binImgs_uint8_200_by_2", "%s (dtype %s; the block sum is 800)" % (v.reshape(-1)[0], v.dtype))
+    except Exception as e:
+        o.note("binImgs_uint8_200_by_2", type(e).__name__)
+    dm = _Diam()
     for n in (130, 258):
         c = numpy.full((n, n), 3.25)
         a = numpy.asarray(psf.azimuthal_average(c.copy()), dtype=float)
@@ -623,6 +823,25 @@ def _large(p):
         xi, yi = psf.encircled_energy(d.copy(), eeDiameter=False)
         _curve_clauses(o, numpy.asarray(xi), numpy.asarray(yi), "large:n=%d" % n)
         o.stat("lib_calls", 3)
+        # the diameters at these sizes, on the image above and on a compact one (every fraction reached), about
+        # the default centre and (130) about a caller-given pixel centre
+        for name, x, cen in (("dense", d, None), ("compact", _compact_image(n, n // 2), None),
+                             ("compact_centre", _compact_image(n, n // 2 - 8.5), (n // 2 - 8.5, n // 2 - 8.5)))[:3 if n == 130 else 2]:
+            xi, yi = psf.encircled_energy(x.copy(), eeDiameter=False) if cen is None else \
+                psf.encircled_energy(x.copy(), center=cen, eeDiameter=False)
+            xi, yi = numpy.asarray(xi, dtype=float), numpy.asarray(yi, dtype=float)
+            if xi.ndim != 1 or xi.shape != yi.shape or len(xi) < 2:
+                o.check("ee_grid_increasing_from_zero", False, sub="large:n=%d:%s" % (n, name))
+                continue
+            _curve_clauses(o, xi, yi, "large:n=%d:%s" % (n, name))
+            o.stat("lib_calls", 1 + dm.add(psf, x, xi, yi, "n=%d %s" % (n, name), cen, FRACTIONS + EXTRA_FRACTIONS))
+    dm.flush(o)
+    # observation only (the statement does not fix the default fraction)
+    try:
+        dd = psf.encircled_energy(d.copy())
+        o.note("ee_default_fraction", [fr for fr in FRACTIONS if psf.encircled_energy(d.copy(), fraction=fr) == dd])
+    except Exception as e:
+        o.note("ee_default_fraction", type(e).__name__)
     # call histories on one caller-owned image: handed over again unchanged, and again after an in-place edit
     from mc import variants
     im = numpy.fromfunction(lambda y, x: (y * 5 + x * 3) % 7 + 0.5 * y + 1.0, (8, 8))
@@ -653,4 +872,41 @@ def _large(p):
         ok = out.shape == (139, 139)
         o.close("polynomial_exact_large", _maxabs(out - want) / _maxabs(want) if ok else float("inf"), 1e-10, sub=fn_name)
         o.stat("lib_calls", 1)
+        # every order with a polynomial of exactly that degree in each variable (a lower-order or smoothing branch
+        # for large arrays does not reproduce it), up (70 -> 139) and down (139 -> 93); a sample-coded image that
+        # must come back at the old nodes (70 -> 139) and unchanged (130 -> 130). Unchanged library: <= 5e-15.
+        f = getattr(interpolation, fn_name)
+
+        def poly(m, new, k, tensor):
+            """0.5 x^k - 0.25 y^k + x y^(k-1) (total degree k) [+ x^k y^k] on the grid of `new` samples, x, y in 0..1"""
+            g = numpy.array([float(t) for t in imgops.zoom_grid(m, new)]) / (m - 1.0)
+            u, one = g ** k, numpy.ones(new)
+            v = 0.5 * numpy.outer(u, one) - 0.25 * numpy.outer(one, u) + numpy.outer(g, g ** (k - 1))
+            return v + numpy.outer(u, u) if tensor else v
+
+        def coded(m):
+            i, j = numpy.indices((m, m))
+            return (i * i * 7 + j * 13 + i * j * 3) % 17 - 8.0
+        for order in (1, 3, 5):
+            for m, new in ((70, 139), (139, 93)):
+                err = {}
+                for tensor in (False, True):
+                    want = poly(m, new, order, tensor)
+                    out = numpy.asarray(f(poly(m, m, order, tensor), (new, new), order=order))
+                    err[tensor] = _maxabs(out - want) / _maxabs(want) if out.shape == want.shape else float("inf")
+                    o.stat("lib_calls", 1)
+                # x^k y^k is demanded as long as the library reproduces it (tensor-product engine, see ASSUMPTIONS)
+                if not err[True] <= 1e-10 and err[False] <= 1e-10:
+                    o.stat("polynomial_tensor_degree_not_claimed", 1)
+                o.close("polynomial_exact_large", max(err[False], err[True]) if err[True] <= 1e-10 else err[False],
+                        1e-10, sub="%s:order=%d:%d->%d" % (fn_name, order, m, new))
+            r = coded(70)
+            out = numpy.asarray(f(r.copy(), (139, 139), order=order))
+            o.close("passes_through_nodes_large", _maxabs(out[::2, ::2] - r) / 8.0 if out.shape == (139, 139) else float("inf"),
+                    1e-10, sub="%s:order=%d:70->139" % (fn_name, order))
+            r = coded(130)
+            out = numpy.asarray(f(r.copy(), (130, 130), order=order))
+            o.close("identity_same_size_large", _maxabs(out - r) / 8.0 if out.shape == (130, 130) else float("inf"),
+                    1e-10, sub="%s:order=%d:130" % (fn_name, order))
+            o.stat("lib_calls", 2)
     return o
